@@ -15,5 +15,8 @@ func (m *Mal) String() string {
 	if m == nil {
 		return "<nil>"
 	}
+	if m.Kind == "random-sig" {
+		return fmt.Sprintf("%s(%s %d %s)", m.API, m.Kind, m.Arg, sigString(m))
+	}
 	return fmt.Sprintf("%s(%s %d %q)", m.API, m.Kind, m.Arg, m.Str)
 }
